@@ -14,7 +14,8 @@ N_QUICK, N_THOROUGH = 4800, 200000
 T_QUICK, T_THOROUGH = 75, 1500
 FLOORS = {"graphs": 800, "builds": 150, "with_fieldless": 150, "cyclic": 100, "order_edges_checked": 5000,
           "guards_checked": 4000, "duplicate_roots": 100, "with_depends_on": 200, "kernels_built_and_called": 50,
-          "with_hybrid_depends_on": 100}
+          "with_hybrid_depends_on": 100, "late_edges": 100, "sorted_once_before_cycle": 20,
+          "stale_same_named_class_listed_first": 60}
 RULE = ("random dependency DAGs of 2-10 classes of every kind (structs with nested/array/Ref/UnionRef fields, field-less "
         "structs, hybrid classes, array classes, union references, Ref types, declared _depends_on edges on structs and on "
         "hybrid classes naming plain and hybrid classes), random root subsets, orders "
@@ -107,7 +108,14 @@ def gen_graph(rng):
             n = add("S", cls, deps + extra)
             n.has_dep_on = bool(extra)
         elif r < 0.85:
-            if cands and rng.random() < 0.7:
+            if cands and rng.random() < 0.25:
+                # an array whose items are references: the target is reached only through the Ref item type
+                d = rng.choice(cands)
+                rf = xo.Ref[d.cls]
+                rn = next((n for n in nodes if n.name == rf.__name__), None) or add("R", rf, [d], rf.__name__)
+                an = add("A", type(f"{pre}AR{i}", (rf[rng.choice([3, slice(None)])],), {}), [rn])
+                an.array_of_refs = True
+            elif cands and rng.random() < 0.7:
                 d = rng.choice(cands)
                 add("A", type(f"{pre}A{i}", (d.cls[rng.choice([3, slice(None), (2, slice(None))])],), {}), [d])
             else:
@@ -149,10 +157,44 @@ def run_case(w, rng):
             cyclic = False
         else:
             a, b = rng.choice(cand)
+            if rng.random() < 0.4:
+                try:  # sorted once while still acyclic
+                    sort_classes([a.cls, b.cls])
+                    w.count("sorted_once_before_cycle")
+                except Exception:
+                    pass
             a.cls._depends_on.append(b.cls)
             info["cycle_edge"] = [a.name, b.name]
     k = rng.randint(1, min(4, len(nodes)))
     roots = rng.sample(nodes, k)
+    late = rng.random() < 0.3
+    if late:
+        # the classes have been sorted / built once BEFORE a dependency is declared later on (a union gets a new
+        # member, a class a new _depends_on entry): the second build must see the graph as it is then
+        try:
+            sort_classes([r.cls for r in roots])
+        except Exception:
+            pass
+        w.count("sorted_once_before_late_edge")
+        if not cyclic:
+            cand2 = [(a, b) for ia, a in enumerate(nodes) for b in nodes[:ia]
+                     if a.kind in ("S", "U") and b.kind in ("S", "A", "E") and b not in a.deps and not getattr(a, "hy", None)]
+            if cand2:
+                a, b = rng.choice(cand2)
+                if a.kind == "U":
+                    a.cls._reftypes.append(b.cls) if isinstance(a.cls._reftypes, list) else None
+                    if isinstance(a.cls._reftypes, list):
+                        a.deps.append(b)
+                        info["late_edge"] = [a.name, b.name, "union member"]
+                else:
+                    a.cls._depends_on.append(b.cls)
+                    a.deps.append(b)
+                    a.has_dep_on = True
+                    info["late_edge"] = [a.name, b.name, "_depends_on"]
+                if "late_edge" in info:
+                    w.count("late_edges")
+                    if a.name not in closure(roots):
+                        roots.append(a)
     if cyclic and not any(info["cycle_edge"][0] in closure([r]) for r in roots):
         roots.append(next(n for n in nodes if n.name == info["cycle_edge"][0]))
     dup = rng.random() < 0.2
@@ -160,6 +202,15 @@ def run_case(w, rng):
         roots = roots + [rng.choice(roots)]
         w.count("duplicate_roots")
     rng.shuffle(roots)
+    twin = None
+    if rng.random() < 0.2:
+        cs = [r for r in roots if r.kind == "S" and not getattr(r, "hy", None)]
+        if cs:
+            r0 = rng.choice(cs)
+            # an older definition of the same name with fewer dependencies, listed first: "the last one is used"
+            twin = type(r0.name, (xo.Struct,), {"old": xo.Int64})
+            info["stale_twin_of"] = r0.name
+            w.count("stale_same_named_class_listed_first")
     info["roots"] = [r.name for r in roots]
     info["cyclic"] = cyclic
     seen = set()
@@ -176,8 +227,11 @@ def run_case(w, rng):
         w.count("with_depends_on")
     if any(getattr(n, "hybrid_dep_on", False) for n in closure(roots).values()):
         w.count("with_hybrid_depends_on")
+    root_classes = [r.cls for r in roots]
+    if twin is not None:
+        root_classes.insert(0, twin)
     try:
-        res = sort_classes([r.cls for r in roots])
+        res = sort_classes(list(root_classes))
         raised = None
     except Exception as e:
         res, raised = None, e
@@ -200,6 +254,8 @@ def run_case(w, rng):
         return
     want = closure(roots)
     names = [c.__name__ for c in res]
+    if twin is not None and twin in res:
+        viol("stale-same-named-class-emitted", f"the older definition of {twin.__name__} was emitted")
     for nm in want:
         cnt = names.count(nm)
         if cnt != 1:
@@ -236,7 +292,7 @@ def run_case(w, rng):
             kern = {}
             if root is not None and rng.random() < 0.6:
                 kern = root.cls._gen_kernels()
-            ctx().add_kernels(kernels=kern, extra_classes=[r.cls for r in roots], extra_compile_args=("-O0", "-w"), extra_link_args=())
+            ctx().add_kernels(kernels=kern, extra_classes=list(root_classes), extra_compile_args=("-O0", "-w"), extra_link_args=())
             w.count("builds")
             if kern and root.kind == "A":
                 nm = f"{root.name}_len"
